@@ -112,7 +112,7 @@ def build(cfg):
     k = cfg["kind"]
     N = cfg["N"] if cfg["N"] is not None else np.inf
     kw = {kk: float(v) for kk, v in cfg["p"].items()}
-    base = dict(u=float(cfg["u"]), N=N, t=float(cfg["t"]), random_order=cfg["ro"])
+    base = dict(u=(int(cfg["u"]) if cfg.get("int_u") else float(cfg["u"])), N=N, t=float(cfg["t"]), random_order=cfg["ro"])
     if k == "alpha_fixed":
         return NonnegMean(test=NonnegMean.alpha_mart, estim=NonnegMean.fixed_alternative_mean, **base, **kw)
     if k == "alpha_shrink":
@@ -384,6 +384,161 @@ def gen_nondyadic(rng):
     return cfg, xs
 
 
+# ---------------------------------------------------------------- long samples / awkward magnitudes (oracles only)
+LONG_LENGTHS = [65, 66, 70, 100, 127, 129, 150, 200, 257, 300, 500, 777, 1025, 1100, 1500, 2049, 2100, 2600, 3000]
+LONG_WEIGHTS = [6, 4, 4, 6, 4, 4, 6, 4, 3, 3, 2, 2, 2, 1, 1, 2, 1, 1, 1]
+SCALES = [1e-9, 4e-9, 2.0 ** -30, 1e-6, 1e-3, 1e3, 1e6, 2.0 ** 20]
+LONG_STYLES = ["mix", "mix", "mix", "favourable", "int_u", "int_u", "overshoot", "overshoot", "scaled", "scaled"]
+
+
+def _pool(u):
+    base = [F(1, 10), F(3, 10), F(6, 10), F(7, 10), F(1, 3), F(2, 3), F(55, 100), F(0), F(1), F(1, 2), F(1, 4), F(3, 4)]
+    return [v for v in (C.frac(float(b * u)) for b in base) if 0 <= v <= u]
+
+
+def long_xs(rng, cfg, n, like=None):
+    """n values in [0,u]: from the pool, or resampled from `like` (plus the extremes) so that magnitudes match"""
+    u = cfg["u"]
+    if like is not None:
+        vals = sorted(set(like)) + [F(0), u]
+    elif cfg.get("int_u"):
+        vals = [F(i) for i in range(int(u) + 1)]
+    else:
+        vals = _pool(u)
+    style = rng.choice(["mix", "mix", "two", "drift", "const"])
+    if style == "const":
+        return [rng.choice(vals)] * n
+    if style == "two":
+        a, b = rng.choice(vals), rng.choice(vals)
+        return [rng.choice([a, b]) for _ in range(n)]
+    if style == "drift":     # composition changes along the sample
+        k = rng.randint(0, n)
+        lo, hi = vals[:max(1, len(vals) // 2)], vals[len(vals) // 2:]
+        return [rng.choice(hi) for _ in range(k)] + [rng.choice(lo) for _ in range(n - k)]
+    return [rng.choice(vals) for _ in range(n)]
+
+
+def scale_case(cfg, xs, s):
+    """the same problem in other units: values, bounds and additive tuning constants times s, bets divided by s"""
+    sc = lambda v: C.frac(float(v * C.frac(s)))
+    cfg = dict(cfg, u=sc(cfg["u"]), t=sc(cfg["t"]), p=dict(cfg["p"]))
+    for k in ("eta", "c", "minsd") + (() if cfg["kind"] == "kw" else ("g",)):     # Kaplan-Wald's g is a pure number
+        if k in cfg["p"]:
+            cfg["p"][k] = sc(cfg["p"][k])
+    if "lam" in cfg["p"]:
+        cfg["p"]["lam"] = C.frac(float(cfg["p"]["lam"] / C.frac(s)))
+    xs = [min(sc(x), cfg["u"]) for x in xs]
+    return cfg, xs
+
+
+def gen_long(rng, kind=None, style=None):
+    cfg, xs = _gen_long(rng, kind, style)
+    if cfg["kind"] == "sprt" and cfg["N"] is not None:
+        cfg["ro"] = True        # the SPRT refuses finite populations unless the order is random
+    return cfg, xs
+
+
+def _gen_long(rng, kind=None, style=None):
+    """Samples of 65..3000 draws (lengths that are not multiples of typical block sizes), integer-typed bounds, totals that
+    pass N t by a hair on the last draw, long favourable runs (floating-point overflow of the product) and problems
+    expressed in very small / very large units.  Rounding matters here, so these cases are never compared with the exact
+    model; only oracles that are insensitive to rounding are applied."""
+    style = style or rng.choice(LONG_STYLES)
+    kind = kind or rng.choice(KINDS)
+    if style == "scaled" and kind == "alpha_optcomp":
+        kind = "alpha_fixed"                # optimal_comparison is tied to the overstatement scale
+    cfg = gen_cfg(rng, kind=kind)
+    cfg["long"] = style
+    n = rng.choices(LONG_LENGTHS, LONG_WEIGHTS)[0] + rng.choice([0, 0, 1, 3, 7])
+    finite = cfg["N"] is not None
+    if style == "mix":
+        if finite:
+            cfg["N"] = n + rng.choice([0, 1, rng.randint(0, 2 * n), 10 * n])
+        return cfg, long_xs(rng, cfg, n)
+    if style == "favourable":
+        n = rng.choice([1100, 1800, 2100, 2600, 3000]) + rng.randint(0, 9)
+        if kind in ("kk",):
+            cfg["N"] = 10 ** 6
+        elif finite:
+            cfg["N"] = rng.choice([10 ** 6, 10 ** 5, 4 * n])
+        u = cfg["u"]
+        k = rng.randint(0, 80)
+        head = long_xs(rng, cfg, k) if k else []
+        body = [u if rng.random() < 0.985 else rng.choice(_pool(u)) for _ in range(n - k)]
+        return cfg, head + body
+    if style == "int_u":
+        u = rng.choice([1, 2, 2, 3])
+        cfg["u"], cfg["int_u"] = F(u), True
+        cfg["t"] = rng.choice([F(u, 2), F(u, 2), F(u, 4), C.frac(0.55) * u])
+        p = cfg["p"]
+        if "eta" in p:
+            p["eta"] = cfg["t"] + (u - cfg["t"]) * F(rng.randint(1, 7), 8)
+        if kind == "alpha_optcomp":
+            cfg["kind"], cfg["p"] = "alpha_fixed", {"eta": cfg["t"] + (u - cfg["t"]) * F(1, 2)}
+        if kind == "bet_fixed":
+            p["lam"] = F(rng.randint(0, 16), 16) / u
+        n = min(n, 400)
+        if finite:
+            cfg["N"] = n + rng.choice([0, 5, n, 10 * n])
+        return cfg, long_xs(rng, cfg, n)
+    if style == "overshoot":
+        # the LAST draw takes the sample total above N t by a hair
+        for _ in range(60):
+            N = rng.choice([rng.randint(10, 60), rng.randint(60, 400), rng.randint(1000, 20000)])
+            cfg["N"] = N
+            u, t = cfg["u"], cfg["t"]
+            if rng.random() < 0.5:
+                t = C.frac(float(rng.choice([F(55, 100), F(6, 10), F(1, 3), F(51, 100)]) * u))
+                if not (0 < t < u):
+                    continue
+                cfg["t"] = t
+                if "eta" in cfg["p"]:
+                    cfg["p"]["eta"] = C.frac(float(t + (u - t) * F(rng.randint(1, 8), 8)))
+            rel = rng.choice([1e-9, 1e-8, 1e-7, 4e-7, 9e-7, 3e-6, 1e-5])
+            target = N * t * (1 + C.frac(rel))
+            vals = _pool(u)
+            mean = sum(vals) / len(vals)
+            n = int(min(N, max(2, round(float(N * t / mean)) + rng.randint(-2, 2))))
+            xs = [rng.choice(vals) for _ in range(n - 1)]
+            need = target - sum(xs)
+            if 0 <= need <= u:
+                last = C.frac(float(need))
+                if sum(xs) + last > N * t and sum(xs) <= N * t:
+                    if kind in ("km", "kw"):
+                        cfg["N"] = None
+                    return cfg, xs + [last]
+        cfg["long"] = "mix"
+        return cfg, long_xs(rng, cfg, n)
+    # scaled: an ordinary case expressed in other units
+    cfg2, xs = (gen_nondyadic(rng) if rng.random() < 0.5 else (None, None))
+    if cfg2 is None or cfg2["kind"] == "alpha_optcomp":
+        cfg2 = gen_cfg(rng, kind=kind)
+        top = cfg2["N"] or 40
+        xs = gen_xs(rng, cfg2, maxlen=min(top, 40))
+    s = rng.choice(SCALES)
+    cfg2, xs = scale_case(cfg2, xs, s)
+    cfg2["long"] = f"scaled by {s!r}"
+    return cfg2, xs
+
+
+def long_cases(rng, n, kinds=None):
+    out = []
+    for i in range(n):
+        cfg, xs = gen_long(rng, kind=(kinds[i % len(kinds)] if kinds else None))
+        out.append({"cfg": cfg, "xs": xs, "impl": run_impl(cfg, xs, variant=i), "tag": "long/awkward magnitude (oracle only): " + str(cfg["long"])})
+    return out
+
+
+def long_stats(cases):
+    st = {}
+    for c in cases:
+        key = "long stream: " + str(c["cfg"].get("long")).split(" ")[0]
+        st[key] = st.get(key, 0) + 1
+        b = "long stream: length " + ("<=64" if len(c["xs"]) <= 64 else "65-1024" if len(c["xs"]) <= 1024 else "1025-2048" if len(c["xs"]) <= 2048 else ">2048")
+        st[b] = st.get(b, 0) + 1
+    return st
+
+
 # ---------------------------------------------------------------- replay support
 def unjson(v):
     """inverse of common.jsonable for the values this family uses ("n/d" strings, "nan"/"inf", lists, dicts)"""
@@ -408,8 +563,12 @@ def unjson(v):
 
 
 def cfg_from_json(j):
-    return {"kind": j["kind"], "N": (int(j["N"]) if j["N"] is not None else None), "t": unjson(j["t"]), "u": unjson(j["u"]),
-            "ro": bool(j["ro"]), "p": {k: unjson(v) for k, v in j["p"].items()}}
+    out = {"kind": j["kind"], "N": (int(j["N"]) if j["N"] is not None else None), "t": unjson(j["t"]), "u": unjson(j["u"]),
+           "ro": bool(j["ro"]), "p": {k: unjson(v) for k, v in j["p"].items()}}
+    for k in ("int_u", "long"):
+        if j.get(k):
+            out[k] = j[k]
+    return out
 
 
 def replay_cases(payload):
@@ -435,8 +594,9 @@ def run_replay(ctx, res, oracle=None):
     """Re-run the recorded cases: correspondence on them, plus the module's per-case oracle."""
     pairs = replay_cases(ctx.replay)
     cases = [{"cfg": cfg, "xs": xs, "impl": run_impl(cfg, xs), "tag": "replay"} for cfg, xs in pairs]
-    if cases:
-        cr = C.run_corr(ctx.pid, "replay", IMPORTS, "nnm_case", cases, case_lit, "agree_nnm", shard=150, show="show_nnm")
+    short = [c for c in cases if not c["cfg"].get("long")]     # long / awkward-magnitude cases are oracle-only
+    if short:
+        cr = C.run_corr(ctx.pid, "replay", IMPORTS, "nnm_case", short, case_lit, "agree_nnm", shard=150, show="show_nnm")
         res.corr.append(("replayed cases: NonnegMean vs NNM model", cr, case_json))
     for c in cases:
         res.evaluations += 1
